@@ -455,10 +455,14 @@ def extract_fn(repo, blk, meta, mode):
             except IndexError:
                 raise X.LostAnchor('%s::%s: statement #%d not found (%d statements)' % (rel, kv['name'], n, len(starts)))
     for n, lines in blk.loopstart.items():
+        if n >= len(loops) and n in blk.loop_optional:
+            continue
         if n >= len(loops):
             raise X.LostAnchor('%s::%s: loop #%d not found (%d loops)' % (rel, kv['name'], n, len(loops)))
         add_insert(loops[n][1] + 1, lines, 'proof')
     for n, lines in blk.loopend.items():
+        if n >= len(loops) and n in blk.loop_optional:
+            continue
         if n >= len(loops):
             raise X.LostAnchor('%s::%s: loop #%d not found (%d loops)' % (rel, kv['name'], n, len(loops)))
         add_insert(match_close(body, loops[n][1]), lines, 'proof')
